@@ -197,12 +197,26 @@ def run_lines(exe, lines, shards=16, timeout=None):
 
 
 CLOCK = re.compile(r"clock (\d+)")
-CERR_PAYLOAD = re.compile(r"( CERR [^(]*?: \w+)\(.*$")
+CERR_PAYLOAD = re.compile(r"( CERR [^(]*?: \w+)(\(.*)$")
+NONASCII = re.compile(r"\\x([0-9a-f]+);")
 
 
-def normalise_impl(line):
-    """Rust's Debug payload of an unsupported construct is not modelled: keep the variant name."""
-    return CERR_PAYLOAD.sub(r"\1", line)
+def _has_nonascii(payload):
+    return any(int(h, 16) >= 0x80 for h in NONASCII.findall(payload))
+
+
+def normalise_pair(impl, model):
+    """The Debug rendering of an unsupported construct's string payload is modelled for the ASCII
+    range only (Rust escapes other characters by Unicode tables): when either side's payload has a
+    character above 0x7f the payload is dropped from both and only kind + variant name compare."""
+    mi, mm = CERR_PAYLOAD.search(impl or ""), CERR_PAYLOAD.search(model or "")
+    if mi and (not mm or _has_nonascii(mi.group(2)) or _has_nonascii(mm.group(2))):
+        impl = CERR_PAYLOAD.sub(r"\1", impl)
+        if mm:
+            model = CERR_PAYLOAD.sub(r"\1", model)
+    elif mm and not mi:
+        model = CERR_PAYLOAD.sub(r"\1", model)
+    return impl, model
 
 
 def run_both(cases, harness_exe, driver_exe=None, shards=16):
@@ -214,7 +228,7 @@ def run_both(cases, harness_exe, driver_exe=None, shards=16):
         m = CLOCK.search(o or "")
         mcases.append(c + (" @" + m.group(1) if m else ""))
     model = run_lines(driver_exe, mcases)
-    return [(c, normalise_impl(i), m) for c, i, m in zip(cases, impl, model)]
+    return [(c,) + normalise_pair(i, m) for c, i, m in zip(cases, impl, model)]
 
 
 # ---------------------------------------------------------------- verdicts and evidence
